@@ -106,7 +106,7 @@ def canon_model(line):
 # generators
 # ---------------------------------------------------------------------------------------------
 
-DELIMS = "|\\^&\r"
+DELIMS = "|\\^\r"        # (the escape character & is ordinary text for the codec)
 # framing controls and line separators are ordinary text for the record grammar (only | \\ ^ CR are special)
 CTRL = [2, 3, 0x17, 10, 11, 12, 0x1c, 0x1d, 0x1e]
 ALPHABETS = {
@@ -120,7 +120,12 @@ ALPHABETS = {
 }
 
 
+ESCAPE_LOOKING = ["R&F&D", "a&S&b", "&E&", "&R&", "&", "&&", "Smith &E& Sons", "&X41&", "&F&&S&"]
+
+
 def text(rng, enc, n=None, allow_delims=False):
+    if n is None and rng.random() < 0.03:
+        return rng.choice(ESCAPE_LOOKING)        # text that looks like an E1394 escape sequence is text
     n = rng.choice([1, 1, 2, 3, 5, 9]) if n is None else n
     alpha = ALPHABETS[enc]
     out = []
@@ -188,13 +193,14 @@ def encodable_in(records, enc):
         return False
 
 
-def no_framing(x):
+def no_framing(x, keep_etx=False):
     """the same tree with the framing controls STX ETX ETB replaced (E1381 excludes them from frame text; chunk
-    classification looks for ETB)"""
+    classification looks for ETB).  keep_etx: an ETX inside the text stays (nothing looks for it there)"""
     if isinstance(x, str):
-        return x.replace("\x02", "x").replace("\x03", "y").replace("\x17", "z")
+        x = x.replace("\x02", "x").replace("\x17", "z")
+        return x if keep_etx else x.replace("\x03", "y")
     if isinstance(x, list):
-        return [no_framing(y) for y in x]
+        return [no_framing(y, keep_etx) for y in x]
     return x
 
 
